@@ -1,6 +1,11 @@
 use std::collections::HashMap;
 use std::sync::atomic::Ordering;
 use std::sync::Arc;
+#[cfg(metrics_verif)]
+use metrics::__verif::sync::RwLock;
+#[cfg(metrics_verif)]
+use std::sync::PoisonError;
+#[cfg(not(metrics_verif))]
 use std::sync::{PoisonError, RwLock};
 
 use indexmap::IndexMap;
@@ -30,6 +35,8 @@ impl Inner {
     fn get_recent_metrics(&self) -> Snapshot {
         let mut counters = HashMap::new();
         let counter_handles = self.registry.get_counter_handles();
+        #[cfg(metrics_verif)]
+        let counter_handles = metrics::__verif::det::sorted(counter_handles);
         for (key, counter) in counter_handles {
             let gen = counter.get_generation();
             if !self.recency.should_store_counter(&key, gen, &self.registry) {
@@ -45,6 +52,8 @@ impl Inner {
 
         let mut gauges = HashMap::new();
         let gauge_handles = self.registry.get_gauge_handles();
+        #[cfg(metrics_verif)]
+        let gauge_handles = metrics::__verif::det::sorted(gauge_handles);
         for (key, gauge) in gauge_handles {
             let gen = gauge.get_generation();
             if !self.recency.should_store_gauge(&key, gen, &self.registry) {
@@ -62,6 +71,8 @@ impl Inner {
         self.drain_histograms_to_distributions();
         // Remove expired histograms
         let histogram_handles = self.registry.get_histogram_handles();
+        #[cfg(metrics_verif)]
+        let histogram_handles = metrics::__verif::det::sorted(histogram_handles);
         for (key, histogram) in histogram_handles {
             let gen = histogram.get_generation();
             if !self.recency.should_store_histogram(&key, gen, &self.registry) {
@@ -96,6 +107,8 @@ impl Inner {
     /// Drains histogram samples into distribution.
     fn drain_histograms_to_distributions(&self) {
         let histogram_handles = self.registry.get_histogram_handles();
+        #[cfg(metrics_verif)]
+        let histogram_handles = metrics::__verif::det::sorted(histogram_handles);
         for (key, histogram) in histogram_handles {
             let (name, labels) = key_to_parts(&key, Some(&self.global_labels));
 
